@@ -21,7 +21,7 @@
 EXTENDS CoreExpr, TLC, Json
 
 CONSTANTS Family, MaxRows, Live,
-          DevLimiterNoComplete, DevPopOldest, DevTruncAll, DevSwallowBreak
+          DevLimiterNoComplete, DevPopOldest, DevTruncAll, DevSwallowBreak, DevSplitLast
 
 P == INSTANCE Pipeline WITH Ev <- CoreEv
 
